@@ -176,7 +176,8 @@ Record guard_shape := {
   g_fold : fold_shape;
   g_rebuild : rebuild_shape;
   g_static_max : list (string * bool * N);        (* level_filters.rs: (feature, consulted only without debug assertions?, level rank), in source order *)
-  g_static_release_falls_through : bool           (* does a build without debug assertions that matches no release row continue with the max_level_* rows? *)
+  g_static_release_falls_through : bool;          (* does a build without debug assertions that matches no release row continue with the max_level_* rows? *)
+  g_static_last_wins : bool                       (* does the LAST enabled row of the profile's family win (a loop that keeps overwriting) instead of the first? *)
 }.
 
 (** The interest byte: what set_interest writes and what interest() / register() read back. *)
@@ -224,10 +225,17 @@ Fixpoint first_row (tbl : list (string * bool * N)) (rel : bool) (on : string ->
   | [] => None
   | (f, rel_only, lvl) :: r => if Bool.eqb rel_only rel && on f then Some lvl else first_row r rel on
   end.
-Definition static_max_of (tbl : list (string * bool * N)) (falls_through release : bool) (on : string -> bool) : N :=
-  match first_row tbl release on with
+Fixpoint last_row (tbl : list (string * bool * N)) (rel : bool) (on : string -> bool) (acc : option N) : option N :=
+  match tbl with
+  | [] => acc
+  | (f, rel_only, lvl) :: r => last_row r rel on (if Bool.eqb rel_only rel && on f then Some lvl else acc)
+  end.
+Definition pick_row (last_wins : bool) (tbl : list (string * bool * N)) (rel : bool) (on : string -> bool) : option N :=
+  if last_wins then last_row tbl rel on None else first_row tbl rel on.
+Definition static_max_of (tbl : list (string * bool * N)) (falls_through last_wins release : bool) (on : string -> bool) : N :=
+  match pick_row last_wins tbl release on with
   | Some l => l
-  | None => if release && falls_through then match first_row tbl false on with Some l => l | None => 5 end else 5
+  | None => if release && falls_through then match pick_row last_wins tbl false on with Some l => l | None => 5 end else 5
   end.
 
 (** What the feature NAMES configure, independently of the source: in a build without debug assertions the
